@@ -129,6 +129,9 @@ func (u *PacketUnderlay) Close() error {
 	// Unblock any pending I/O before closing sessions.
 	u.conn.SetReadDeadline(time.Now())
 	u.baseUnderlay.Close()
+	// The event loop may have started another read with a fresh timeout while
+	// the sessions were being closed. Unblock it again now that done is closed.
+	u.conn.SetReadDeadline(time.Now())
 	return nil
 }
 
@@ -351,6 +354,12 @@ func (u *PacketUnderlay) readOneSegment() (*segment, net.Addr, error) {
 		// Use the largest possible value here to avoid error.
 		b := make([]byte, 1500)
 		common.SetReadTimeout(u.conn, readOneSegmentTimeout)
+		select {
+		case <-u.done:
+			// The underlay was closed before the timeout above was set.
+			u.conn.SetReadDeadline(time.Now())
+		default:
+		}
 		n, addr, err := u.conn.ReadFrom(b)
 		if err != nil {
 			if stderror.IsTimeout(err) {
